@@ -1031,7 +1031,7 @@ def run(ctx: fw.Ctx) -> int:
     ctx.differential('field', sw2.header, sw2.cases, shard=60)
     # the same alphabet one handler at a time (a registry-level prematch is satisfied by any one handler)
     sd = fd if ctx.thorough else fd[::4]
-    ss = [s for i, s in enumerate(fs) if i % (17 if ctx.thorough else 19) == 0 or s['cls'] != 'changing']
+    ss = [s for i, s in enumerate(fs) if i % (29 if ctx.thorough else 19) == 0 or s['cls'] != 'changing']
     ctx.differential('field1', HEADER, single_cases(ctx, sd, ss), shard=150)
     ctx.differential('decorators', HEADER, attrs, shard=200)
     sweeps.append(sw2)
@@ -1041,7 +1041,7 @@ def run(ctx: fw.Ctx) -> int:
                 ctx.nontriv(['decl-varies', s_.name, d])
 
     # ---------- random larger registries ----------
-    n = ctx.scale(1500, 24000)
+    n = ctx.scale(1500, 12000)
     rnd: list[fw.Case] = []
     for i in range(n):
         cls = r.choice(['changing', 'changing', 'changing', 'watching', 'spawning', 'indexing'])
